@@ -555,7 +555,8 @@ def history(world, runs, setup=None):
                 # calling process() again on this object would read a closed memory map, which crashes the interpreter.
                 # Outside the listed properties (a retry by a fresh object works): recorded as an observation, not executed.
                 OBSERVED.add(f"{world.kind}: process() on the same object after an interruption that left its reader closed "
-                             f"(first run {', '.join(k for k in OPT_KEYS if runs[0][0].get(k))} interrupted at step {runs[0][1]}) would read a closed memmap")
+                             f"(first run {', '.join(k for k in OPT_KEYS if runs[0][0].get(k))} interrupted at step {runs[0][1]}) "
+                             "would read a closed memmap")
                 break
             if not o["ow"] and not o.get("sub") and uneven(world):
                 # outside the property (DESIGN.md 9.6; NP2Convert!FoldersUneven): only some of the shank folders exist (an earlier
@@ -856,7 +857,10 @@ def run(ctx):
     selftest(ctx, traces, {v["index"] for v in verdicts if v["prop"] or not UNBOUND})
     ctx.cov["rule"] = ("histories of 1-3 process() calls by fresh converter objects: every option vector x every interruption point "
                        "(single runs, enumerated until the run has no further step) + two/three-run histories (complete or "
-                       "interrupted first run, any second run); distinct = distinct (kind, original form, run list)")
+                       "interrupted first run, any second run) + histories that start from a found state (original in two forms / next "
+                       "to a stale file of the other form and either one handed over; shank folders holding other files or output of "
+                       "another recording; init_params(extra)) + runs by an object constructed before the earlier runs / parameterised "
+                       "again / restricted to one shank; distinct = distinct (kind, original form, found state, run list)")
     ctx.assumptions += ["interruptions are exceptions raised at step boundaries of process() (no torn writes, no power loss)",
                         "a fresh NP2Converter object per run, the same object called again (BeginReuse), the same object after another "
                         "init_params, or an object constructed before the earlier runs; a run is started only while the file its object "
@@ -867,7 +871,8 @@ def run(ctx):
 
 def selftest(ctx, traces, bad):
     good = [i for i, t in enumerate(traces) if i not in bad and t["kind"] == "NP24" and len(t["runs"]) == 1
-            and t["form"] in ("bin", "cbin") and not t.get("setup") and not t["runs"][0][0].get("sub") and t["runs"][0][1] is None and t["runs"][0][0]["del"] and t["runs"][0][0]["chk"] and t["steps"][-1]["status"] == "1"][:4]
+            and t["form"] in ("bin", "cbin") and not t.get("setup") and not t["runs"][0][0].get("sub") and t["runs"][0][1] is None
+            and t["runs"][0][0]["del"] and t["runs"][0][0]["chk"] and t["steps"][-1]["status"] == "1"][:4]
     if len(good) < 2:
         raise tlc.TLCError("selftest: no accepted delete_original traces")
     mut = []
